@@ -296,6 +296,9 @@ class Machine(Interp):
                     self.assign(_g.target, _src.elem(vm_, idx), cfr)
                     return self.ev(_n.elt, cfr)
                 self.ctx.notes.append(("mapped-comprehension", getattr(n, "lineno", 0)))
+                if src.meta.get("kind") == "generator":
+                    # a list comprehension is eager: a lazily produced stream is consumed completely here (C10 reads this log)
+                    self.ctx.effect("materialise", (src.name, "list-comprehension", getattr(n, "lineno", 0)))
                 return SymStream(f"map:{src.name}", elem, length=src.length, meta={"kind": "list", "source": src})
             return self._listcomp_over(n, fr, src)
         out = []
@@ -305,6 +308,9 @@ class Machine(Interp):
 
     def _listcomp_over(self, n, fr, src):
         g = n.generators[0]
+        if isinstance(src, GenObj):
+            # eager consumption of a generator by a list comprehension (C10 reads this log)
+            self.ctx.effect("materialise", (src.name, "list-comprehension", getattr(n, "lineno", 0)))
         cfr = Frame(self, fr.module, fr.func, parent=fr)
         out = []
 
